@@ -213,7 +213,10 @@ func (in *Interp) callFunction(f *Obj, this Value, args []Value) Value {
 	}
 	if in.Flags&AltLabelStack != 0 {
 		// otto: an unconsumed break/continue result leaves the function like a
-		// return of its (empty) value
+		// return of the value it carries (none unless completions carry values)
+		if res.Value != nil && !in.dropOnBreak() {
+			return res.Value
+		}
 		return in.escapedResultValue()
 	}
 	panic("model: break/continue completion escaped a function body")
